@@ -181,7 +181,7 @@ func backendFor(cfg string, evictions *int64) valid.CacheEr {
 }
 
 type c08Facts struct {
-	lateRegs int // global registrations performed in the middle of histories
+	lateRegs        int  // global registrations performed in the middle of histories
 	otherTagEarlier bool // a call on a type validated earlier under a different tag name
 	reanalysed      bool // a (type, tag) seen before had to be analysed again (evicted meanwhile)
 	hits            int64
@@ -234,7 +234,7 @@ func checkC08(c *C08Case) (string, c08Facts) {
 		proxy.set(backend)
 		proxy.count = true
 		seen := map[string]map[string]bool{} // type -> tags validated so far under this backend
-		inst, names := c.instantiate()           // fresh names for late registrations, per configuration
+		inst, names := c.instantiate()       // fresh names for late registrations, per configuration
 		for i, step := range inst.flatten() {
 			if step.reg != "" {
 				register(step.reg)
